@@ -4,6 +4,8 @@
    correspondence harness harness/tfleet.py on every run. *)
 From Coq Require Import List ZArith Bool Arith.
 From FV Require StoreB TFleet.
+From FV Require Import SrcFragments Lens.
+From FV Require TieStats.
 Import ListNotations.
 Open Scope Z_scope.
 
@@ -82,3 +84,17 @@ Example C14_witness :
   option_map (fun b => (TFleet.avail b, TFleet.loads b)) (TFleet.frun (TFleet.finit 4 3 1) C14_ops) =
   Some ([(9%nat, 8); (7%nat, 5); (8%nat, 5)], [(9%nat, 3); (8%nat, 1); (7%nat, 0)]).
 Proof. vm_compute. reflexivity. Qed.
+
+(* tie B: the two tests that decide a departure and the number of transit legs of a trip, re-translated from
+   base/fleet_store.py on every run (FleetStore._do_put, fleet_activation_process, move_to_ready_items), are the
+   ones the model uses: the capacity trigger fires exactly when the held items reach the capacity, a batch leaves
+   exactly when something is waiting, and a trip is two transit legs *)
+Theorem C14_departure_tests_regenerated :
+  forall s,
+    FleetStore_capacity_trigger (lensB s) = (length (StoreB.transit s) + length (StoreB.ready s) =? StoreB.cap s)%nat /\
+    FleetStore_activation_guard (lensB s) = match StoreB.transit s with [] => false | _ => true end /\
+    FleetStore_transit_legs = 2.
+Proof.
+  exact (fun s => conj (TieStats.fleet_capacity_trigger_src s) (conj (TieStats.fleet_activation_guard_src s) TieStats.fleet_transit_legs_src)).
+Qed.
+Print Assumptions C14_departure_tests_regenerated.
